@@ -15,6 +15,10 @@ b = { "b" }"#;
 const G3: &str = r#"top = { (r | "x")* }
 r = { "y" }"#;
 
+const G4: &str = r#"r0 = { r3 }
+r1 = { r3 }
+r3 = { "c" }"#;
+
 fn ctx(grammar: &str, input: &str, bps: &[&str]) -> DebuggerContext {
     let mut c = DebuggerContext::default();
     c.load_grammar_direct("g", grammar).expect("grammar");
@@ -137,6 +141,46 @@ fn main() {
             // every `digit` entry of the parse comes after the stop at ident@0 (the first one is
             // the !digit look-ahead inside that ident), so the rest of the run reports them all
             assert_eq!(got, expected(GRAMMAR, "ident_list", "ab c1", &["digit"]));
+        }
+        // a continue issued before any breakpoint is pending, then a restart (finding C17-F1 on
+        // the tree before commit c09b9e1: parser blocked in send, run() blocked in join)
+        "early_cont_then_run" => {
+            let mut c = ctx(G4, "", &["r3"]);
+            let (tx, rx) = sync_channel(1);
+            c.run("r0", tx).unwrap();
+            c.cont().unwrap();
+            let (tx2, rx2) = sync_channel(1);
+            c.run("r1", tx2).unwrap();
+            let got = drain(&c, &rx2);
+            assert_eq!(got, expected(G4, "r1", "", &["r3"]));
+            drop(rx);
+        }
+        // the same finding driven deterministically on REAL threads: after the early continue the
+        // controller pauses, so the parser has passed its first breakpoint on the stale token and
+        // is blocked delivering the second one when the restart arrives
+        "early_cont_pause_run" => {
+            let g = "top = { a ~ a ~ a }\na = { \"y\" }";
+            let mut c = ctx(g, "yyy", &["a"]);
+            let (tx, rx) = sync_channel(1);
+            c.run("top", tx).unwrap();
+            c.cont().unwrap();
+            std::thread::sleep(std::time::Duration::from_millis(200));
+            let (tx2, rx2) = sync_channel(1);
+            // a watchdog turns the hang into a failure
+            let done = std::sync::Arc::new(std::sync::atomic::AtomicBool::new(false));
+            let d2 = done.clone();
+            std::thread::spawn(move || {
+                std::thread::sleep(std::time::Duration::from_secs(10));
+                if !d2.load(std::sync::atomic::Ordering::SeqCst) {
+                    eprintln!("HANG: run() did not return within 10 s");
+                    std::process::exit(3);
+                }
+            });
+            c.run("top", tx2).unwrap();
+            done.store(true, std::sync::atomic::Ordering::SeqCst);
+            let got = drain(&c, &rx2);
+            assert_eq!(got, expected(g, "top", "yyy", &["a"]));
+            drop(rx);
         }
         other => panic!("unknown scenario {other}"),
     }
